@@ -95,6 +95,16 @@ LABEL_NAMES = ["L", "LOOP", "EXIT", "skip", "end_1", "A", "B2", "Lx", "again", "
 
 @st.composite
 def st_program(draw, max_blocks=6):
+    if draw(st.integers(0, 11)) == 0:
+        # a short program that names many registers: k three-register instructions over 3k different R registers (values from an
+        # earlier subroutine), then instructions with literals - fewer commands than named registers
+        k = draw(st.sampled_from([4, 4, 5]))
+        regs = [f"R{i}" for i in range(3 * k)]
+        prog0 = [[draw(st.sampled_from(["add", "sub"])), [regs[3 * i], regs[3 * i + 1], regs[3 * i + 2]]] for i in range(k)]
+        for _ in range(draw(st.integers(1, 2))):
+            prog0.append([draw(st.sampled_from(["add", "sub"])), [draw(st.sampled_from(regs)), draw(st.sampled_from(regs)), draw(st.integers(1, 9))]])
+        return {"prog": prog0, "init": {r: draw(st.integers(0, 9)) for r in regs}, "unit": 3, "style": draw(st.lists(st.integers(0, 99), min_size=30, max_size=30)),
+                "flavour": draw(st.sampled_from([None, None, "vanilla", "nv", "reids"]))}
     nregs_extra = draw(st.sampled_from([0, 0, 0, 2, 6, 9, 10, 11, 12]))
     # which of R4..R15 the program names (when few stay free, it matters which ones)
     pool = VARS + (MORE_R[:nregs_extra] if draw(st.booleans()) else sorted(draw(st.permutations(MORE_R))[:nregs_extra], key=lambda r: int(r[1:])))
